@@ -224,6 +224,13 @@ def write_json(path, obj):
 
 
 def main(argv):
+    # one check per property at a time: the run directory build/run/<ID> is shared
+    pid = next((x for x in argv if not x.startswith('-')), 'none')
+    with Lock('prop-' + pid):
+        return _main(argv)
+
+
+def _main(argv):
     import argparse
     ap = argparse.ArgumentParser()
     ap.add_argument("pid")
